@@ -13,6 +13,9 @@ period for lifetimes 0..130 x jitter 5..10 and the real `touch` payload against 
 (view, its resourceVersion, the object and its resourceVersion when the PATCH arrived): applied / refused, resulting status, toggle.
 Multi-operator simulations: 2-4 REAL `kopf.operator()`s on one fake cluster with a ClusterKopfPeering,
 scripted starts / graceful stops / kills / restarts, foreign records, per-operator delivery delays.
+15% of the histories carry an API FAULT at one point of the peering protocol of one operator (`with_faults`): the n-th regular
+keep-alive, the self-touch of a process_peering_event call, a clean(), the withdrawal - refused with a status the client does not
+retry, failing beyond the client's back-offs or only once, a connection error before/after the write, a timeout.
 Oracle (independent of Lean, over virtual time): see `oracle_history` and `direct_oracle`.
 """
 from __future__ import annotations
@@ -46,7 +49,8 @@ TIE = ("S: every call of the real process_peering_event (direct calls on generat
        "call; counter lts.stale_view says how the real staleness is distributed (current / older+same verdict / older+verdict differs). "
        "The Lean witnesses of the open findings F4 (residue), F10 are run through the driver (C13.run) and their claim compared with "
        "the replay of the same scenario on the real code. NOT tied (no trace-to-label-list correspondence of whole histories): the "
-       "labels wake/wakeIssue/land/sleeping, exit, exitBegin/exitEnd, exitLost, kill, and the ghost nextKA/Allowed; for these the "
+       "labels wake/wakeIssue/land/sleeping, exit, exitBegin/exitEnd, exitLost, kill, keepaliveFail (the failed keep-alive: held by the "
+       "oracle clauses C/T/X/Y on histories with injected API faults), and the ghost nextKA/Allowed; for these the "
        "simulation oracle is the only link to the code (the stop ORDER of 26a293c is held by the oracle clauses D/H and the "
        "regressions F7, F9, exit_handler_ignores_cancel)")
 LEVEL_TEXT = ("Lean theorems, STRENGTH partial. FULL (no guard): per call, all status contents: foreign_object_ignored (an event of "
@@ -59,6 +63,14 @@ LEVEL_TEXT = ("Lean theorems, STRENGTH partial. FULL (no guard): per call, all s
               "were the negation): withdraw_on_exit, withdrawn_stays, withdrawn_stays_from (the 'no self-touch in flight' guard is "
               "gone: the observer is stopped before the pinger; selftouch_before_withdrawal = F9's schedule), exit_two_phase, "
               "exiting_operator_still_blocks (in the exit window the record is renewed and everybody it outranks stays paused). "
+              "FULL (seeded change C13e was the negation): failed_keepalive_stops (an operator whose keep-alive failed for good - "
+              "label keepaliveFail: touch() raised in keepalive(), the task ended, the orchestrator was cancelled - is never again a "
+              "running operator that is not on its way out, through ANY label list; it takes no more verdicts), "
+              "failed_keepalive_withdraws (the record is gone at once when the finally's withdrawal lands; the stop can complete); "
+              "the seeded variant as a named step function (stepSwallow: the error is swallowed, the next attempt a period later): "
+              "swallowed_keepalive_two_active_witness (lifetime 60: the record expires at 60 s, the lower one resumes, both running "
+              "and active, the top one without a record - and what the code's step does on the same labels); "
+              "failstop_withdraws_before_handling_stops_witness (finding F11: the record goes before the handling has stopped). "
               "own_record_fresh: guard Timely only (every touch() <= B ticks, 2B < min(5, L-1) s resp. 1/2 s for L = 1, nobody writes "
               "under an operator's identity) - the guards 'old views only if benign' and 'proper exit order' are gone: views of any "
               "age, two-step stops. stale_same_verdict: an older view with the verdict of the current status sets the operator's "
@@ -86,7 +98,9 @@ THEOREMS = [("Kopf.Props.C13", "Kopf.C13." + n) for n in [
     "settle_partial", "failover_exit_partial", "failover_after_loss_partial", "failover_after_loss_timely_partial",
     "resume_after_expiry", "convergence_possible", "cleanup_possible", "cleanup_starved_witness",
     "keepalive_period", "renewal", "renewal_lifetime_one", "own_record_fresh",
-    "withdraw_on_exit", "withdrawn_stays_from", "withdrawn_stays", "selftouch_before_withdrawal"]]
+    "withdraw_on_exit", "withdrawn_stays_from", "withdrawn_stays", "selftouch_before_withdrawal",
+    "failed_keepalive_stops", "failed_keepalive_withdraws", "swallowed_keepalive_two_active_witness",
+    "failstop_withdraws_before_handling_stops_witness"]]
 RULE = ("(1) direct calls: status of 0-5 records over a small identity pool (own record in/out), priority around the own one / "
         "missing / garbled, lifetime ints incl. 0,1,negative / numeric strings / garbage / missing, lastseen placed exactly on the "
         "deadline and +-1 tick / far past / future / missing / null / unparsable / naive & Z formats, unknown keys, non-mapping "
@@ -104,7 +118,14 @@ RULE = ("(1) direct calls: status of 0-5 records over a small identity pool (own
         "namespaced operators peering through the KopfPeering of their namespace, 40% daemons that end only when CANCELLED, 50% a "
         "timer (0.5-2 s), 20% another peering object of the same kind beside the own one (a name that begins/ends like it; a live "
         "top-priority record without lastseen and a dead one in it), half of the foreign records stamped in a local time (UTC "
-        "offsets +02:00, -05:30, +05:45, -01:00). Direct calls: 30% of the lastseen values in a local time; events of foreign "
+        "offsets +02:00, -05:30, +05:45, -01:00); fourth own stream: 15% of the histories carry an injected API FAULT on the peering "
+        "PATCHes of one operator (55% its n-th regular keep-alive, n = 2, 3, rarely 1; 15% each: the self-touch of a waiting call, a "
+        "clean(), the withdrawal of a graceful stop): a status the client does not retry (409, 422, 400), a retried one (500, 503, 429) "
+        "on one or two attempts or on all four (beyond settings.networking.error_backoffs: the error escapes), a connection error "
+        "before / after the server applied the write (x1, x4), a timeout (x1, x4; request_timeout 2 s); the faulted operator's "
+        "lifetime from 2..60 s (half above 20 s: there one skipped renewal round outlives the record), back-offs (1, 1, 2) or "
+        "(0.25, 0.5, 0.5), handlers of 0 / 0.5 / 1.5 s; the timeline is built so that the faulted request happens and its "
+        "consequences (expiry, take-over) fit in; histogram history.api_faults. Direct calls: 30% of the lastseen values in a local time; events of foreign "
         "objects named 'default-2', 'default.', 'xdefault', 'defaul', 'Default', '' ...; half of the events carry a resourceVersion "
         "(the clean must name it). A case is one "
         "process_peering_event call (direct or simulated) "
@@ -119,6 +140,10 @@ TRUSTED = ["harness/sim (virtual-time loop, fake API server incl. merge-patch of
            "abstraction of a status: `lastseen` text -> ticks via iso8601 (kopf's own parser); everything else verbatim",
            "the keep-alive jitter (random.randint(5, 10) as seen from peering.keepalive) is drawn per operator incarnation from a "
            "stream derived from the history's seed, or pinned by the scenario (`jitters`), instead of the process-wide `random`",
+           "fault injection of the histories (sim_c13._mk_fault on fakeapi's fault_rules): the CLASS of a peering PATCH by which a fault "
+           "is aimed (keep-alive / self-touch / clean / withdrawal) is read off its payload (own record written, own record "
+           "removed, others' records removed) and off whether it is issued inside a process_peering_event call; every faulted "
+           "request is logged with its issue and answer time (`fault_hits`): the oracle's fault windows are built from that log",
            "the history oracle's settle window W = max delivery delay + 1 s (after a change of who is live, every operator must "
            "have reacted within W)"]
 ASSUMPTIONS = ["one virtual clock shared by all operators (no clock skew between operators)",
@@ -132,7 +157,8 @@ ASSUMPTIONS = ["one virtual clock shared by all operators (no clock skew between
                "histories use lifetimes >= 1 s and API latency 1/64 s",
                "LATENCY GUARD of renewal / own_record_fresh: every touch() call takes at most B with 2*B < min(5, lifetime-1) s "
                "(1/2 s for lifetime 1) and asyncio.sleep wakes on time; touch() goes through api.request's retry/backoff, so a single "
-               "5xx/429 breaks the bound (C12's subject) - then the record may expire before it is renewed",
+               "5xx/429 breaks the bound (C12's subject) - then the record may expire before it is renewed (generated since the C13e round: "
+               "inside the fault window that is excused, after it the record must be renewed or the operator stopped)",
                "the `*_partial` theorems ask that the LAST view each running operator processes have the verdict of the current status; real "
                "calls nearly always see an older view (watch latency): how the cleaning calls of a run are distributed (current version / "
                "older, same verdict / older, verdict differs) is counted (lts.stale_view); F4's residue are the last ones",
@@ -165,8 +191,24 @@ ASSUMPTIONS = ["one virtual clock shared by all operators (no clock skew between
                "of the histories) except together with a lifetime whose deadline lies within a day of the end/beginning of datetime's "
                "range: whether Peer() overflows there depends on the offset (aware datetimes are added in local time)",
                "an API error inside clean()/touch() of process_peering_event makes the call raise and (since 9ef1bcb) the operator stop: "
-               "`deliver` cannot fail in the model; likewise a garbled record (any theorem is silent on `= .error`): one malformed "
-               "record written by anybody raises in every peer",
+               "`deliver` cannot fail in the model (GENERATED since the C13e round: calls hit by an injected fault are not replayed "
+               "through the model, the oracle judges what follows); likewise a garbled record (any theorem is silent on `= .error`): "
+               "one malformed record written by anybody raises in every peer",
+               "API FAULTS (injected by the scenario = the environment) and what the oracle makes of them. A FAULT WINDOW of an "
+               "operator = from the issue of the first of consecutive faulted requests to the answer of the last + the time the code "
+               "needs to notice (the longest back-off when the failure is of a retried kind - 5xx, 429, 403, connection error, "
+               "timeout -, nothing otherwise; + 4 ticks for the withdrawal's round trip and the callbacks). INSIDE a window of its "
+               "own-record requests an operator may run with an expired or missing record (no code can renew through a failing "
+               "API) and a peer may be active beside it (+ W); AFTER it the operator must have renewed the record or no longer "
+               "count as running (fail-stop: the keep-alive task has ended - clause X excuses exactly that failure, clause Y asks "
+               "that the operator task really ends within 30 s): running with a dead/missing record = VIOLATION (clause C), two "
+               "running operators both active for more than W + 1 s outside the windows = VIOLATION whatever the cause (clause T). "
+               "NOT a violation: the record of an operator that is GONE staying until it expires because its withdrawal was "
+               "refused too (clause D: only refusals by injected faults are excused); a dead record staying while the clean() "
+               "naming it was answered by an injected fault (clause E); a call that retried a faulted request giving its verdict "
+               "that much later (W grows by the longest such delay in that history). A record landing late because the client "
+               "retried (the payload is stamped at the first attempt) is counted, not a tie failure. Open finding F11: on the "
+               "fail-stop way out the record is withdrawn before the handling has stopped (clause H, own signature)",
                "the transition system starts operators pre-paused (mandatory peering, as in the simulations); with optional peering an "
                "operator is active until its first peering event",
                "ORACLE-ONLY clauses (no Lean theorem): paused => watch streams closed; daemons stopped - those that poll their stop flag "
@@ -186,6 +228,8 @@ LAT = 1.0 / 64
 STARVED_CLEAN_SIG = {"site": "peering.clean", "shape": "dead record not cleaned: every clean() naming it is refused (409), the peering object changes faster than the readers' views arrive"}
 # the residue of finding F4 (what 054d47d cannot repair): a VERDICT taken from an old view
 STALE_VERDICT_SIG = {"site": "peering.process_peering_event", "shape": "a live peer judged dead from a view older than its keep-alive margin: the reader is active beside it until its next event", "regime": "late-delivery"}
+# finding F11: on the fail-stop way out (the keep-alive task ends with an API error) the record is withdrawn BEFORE the handling stops
+FAILSTOP_ORDER_SIG = {"site": "peering.keepalive", "shape": "fail-stop: the record is withdrawn by keepalive()'s finally before the orchestrator has stopped the handling; the successor handles a change the failing operator is still handling"}
 EPOCH = datetime.datetime(2030, 1, 1, tzinfo=datetime.timezone.utc)
 
 
@@ -565,6 +609,83 @@ def gen_history(rng: Any, seed: int) -> dict:
             for v in e[2].values():
                 if isinstance(v, dict) and "age" in v:
                     v["tz"] = r3.choice([120, -330, 345, -60])
+    # 15% (a fourth own stream): API FAULTS on the peering PATCHes of one operator - see `with_faults`
+    r4 = random.Random(seed * 15485863 + 29)
+    if r4.random() < FAULT_SHARE:
+        sc = with_faults(r4, sc)
+    return sc
+
+
+FAULT_SHARE = 0.15
+# (kind, status, how many consecutive requests = attempts of kopf's client): statuses the client does not retry; retried ones once
+# or twice (the next attempt gets through) and beyond settings.networking.error_backoffs (3 back-offs = 4 attempts: the error
+# escapes); a connection error before / after the server applied the write; a timeout
+FAULT_KINDS = [("status", 409, 1), ("status", 409, 1), ("status", 422, 1), ("status", 400, 1),
+               ("status", 503, 4), ("status", 500, 4), ("status", 429, 4), ("status", 503, 1), ("status", 500, 2), ("status", 429, 1),
+               ("conn-before", 0, 1), ("conn-before", 0, 4), ("conn-after", 0, 1), ("conn-after", 0, 4), ("timeout", 0, 1), ("timeout", 0, 4)]
+
+
+def with_faults(r: Any, base: dict) -> dict:
+    """A history with an API fault at one particular point of the peering protocol of one operator: the n-th regular keep-alive,
+    the self-touch of a process_peering_event call that slept to a blocker's deadline, a clean() of dead records, the withdrawal.
+    Operators, priorities, peering name and the configuration (scope, daemon mode, timer, other peering objects) are the base
+    history's; the timeline is built so that the faulted request happens and its consequences fit in: lifetimes of the faulted
+    operator both below and above 20 s (above, one skipped renewal round is longer than the record lives)."""
+    names = list(base["ops"])
+    ops = {nm: dict(o) for nm, o in base["ops"].items()}
+    prios = [ops[nm]["priority"] for nm in names]
+    if len(set(prios)) != len(prios):                 # (clashing priorities: everybody pauses; here the top one must be active)
+        for k, nm in enumerate(sorted(names, key=lambda x: ops[x]["priority"])):
+            ops[nm]["priority"] = ops[nm]["priority"] + k
+    top = max(names, key=lambda x: ops[x]["priority"])
+    lower = [x for x in names if x != top]
+    cls = r.choice(["keepalive"] * 11 + ["selftouch"] * 3 + ["clean"] * 3 + ["withdraw"] * 3)
+    kind, status, count = r.choice(FAULT_KINDS)
+    who = (top if r.random() < 0.7 else r.choice(names)) if cls in ("keepalive", "withdraw") else r.choice(lower)
+    for nm in names:
+        ops[nm]["lifetime"] = r.choice([2, 4, 8, 12, 20, 30, 30, 45, 60, 60] if nm == who else [4, 8, 12, 20, 30, 60])
+    L, Ltop = ops[who]["lifetime"], ops[top]["lifetime"]
+    tl: list[list] = []
+    t = 1.0
+    starts = {}
+    for nm in r.sample(names, len(names)):
+        tl.append([t, "start", nm])
+        starts[nm] = t
+        t = _dy(r, t + 0.5, t + 4.0)
+    t_all = t
+    nth = 1
+    if cls == "keepalive":
+        nth = r.choice([2, 2, 2, 3, 3, 1])
+        t_f = starts[who] + (nth - 1) * max(1.0, L - 5.0)            # the latest the n-th keep-alive is issued
+        end = t_f + L + 20.0
+    elif cls == "withdraw":
+        t_f = _dy(r, t_all + 3.0, t_all + 20.0)
+        tl.append([t_f, "stop", who])
+        end = t_f + L + 20.0
+    else:
+        # the top one is killed: the others sleep to its deadline, wake and self-touch; then its record is dead and gets cleaned
+        t_k = _dy(r, t_all + 3.0, t_all + 15.0)
+        tl.append([t_k, "kill", top])
+        nth = r.choice([1, 1, 2])
+        t_f = t_k + Ltop
+        end = t_f + max(o["lifetime"] for o in ops.values()) + 20.0
+    end = float(int(min(end, 260.0)))
+    x = 0
+    te = _dy(r, 2.0, 6.0)
+    while te < end - 1:
+        x += 1
+        tl.append([te, "edit", "a", {"spec": {"x": x}}])
+        te = _dy(r, te + 0.5, te + r.choice([3.0, 6.0, 12.0]))
+    settings: dict[str, Any] = {"networking.request_timeout": 2.0}
+    if r.random() < 0.5:
+        settings["networking.error_backoffs"] = [0.25, 0.5, 0.5]
+    sc = {k: v for k, v in base.items() if k in ("seed", "peering", "objects", "sticky_identities", "scope", "daemon_mode", "timer", "other_peerings")}
+    sc.update({"ops": ops, "pre_status": ({"old-dead": {"priority": 500, "lifetime": 5, "lastseen": "2029-12-31T23:00:00+00:00"}}
+                                          if cls == "clean" and r.random() < 0.5 else None),
+               "response_latency": {}, "handler_delay": r.choice([0.0, 0.0, 0.5, 1.5]),
+               "timeline": sorted(tl, key=lambda e: e[0]), "delivery": {nm: r.choice([0, 0, 1 / 64, 4 / 64, 0.25]) for nm in names},
+               "end": end, "settings": settings,
+               "faults": [{"who": who, "cls": cls, "nth": nth, "count": count, "kind": kind, "status": status}]})
     return sc
 
 
@@ -591,6 +712,37 @@ class Hist:
         self.t_fail: dict[int, float] = {}
         for g in tr.get("guard_failures", []):
             self.t_fail.setdefault(g["inc"], g["t"])
+        # ---- injected API faults (the environment): when, for whom, and for how long no code could have done better ----
+        # A SERIES = consecutive faulted requests of one operator (the attempts of kopf's client: at most the longest back-off
+        # apart). Its WINDOW = [issue of the first, answer of the last + the time the code needs to notice]: the next attempt comes
+        # one back-off later when the failure is of a retried kind (5xx, 429, 403, connection errors, timeouts), at once otherwise;
+        # + 4 ticks for the round trip of what it does then (the withdrawal) and the callbacks that stop the operator.
+        st_ = sc.get("settings") or {}
+        self.backoffs = [float(x) for x in st_.get("networking.error_backoffs", (1, 1, 2))]
+        self.bmax = max([0.0] + self.backoffs)
+        self.hits = sorted(tr.get("fault_hits", []), key=lambda h: h["t"])
+        self.windows: dict[int, list[tuple[float, float, bool, list]]] = {}     # inc -> [(a, b, own-record?, hits)]
+        series: dict[tuple, list[list]] = {}
+        for h in self.hits:
+            if h.get("t_done") is None:
+                h["t_done"] = h["t"] + LAT
+            key = (h["inc"], bool(h.get("in_call")))
+            ss = series.setdefault(key, [])
+            if ss and h["t"] - ss[-1][-1]["t_done"] <= self.bmax + 2 * LAT:
+                ss[-1].append(h)
+            else:
+                ss.append([h])
+        self.call_delay = 0.0           # the longest a process_peering_event call was held up by faults (it retries inside)
+        for (inc, in_call), ss in series.items():
+            for hs in ss:
+                last = hs[-1]
+                retried = last["kind"] != "status" or last["status"] >= 500 or last["status"] in (403, 429)
+                a, b = hs[0]["t"], last["t_done"] + (self.bmax if retried else 0.0) + 4 * LAT
+                own = any(h["cls"] in ("keepalive", "withdraw", "selftouch", None) for h in hs)
+                self.windows.setdefault(inc, []).append((a, b, own, hs))
+                if in_call:
+                    self.call_delay = max(self.call_delay, b - a)
+        self.W += self.call_delay       # a call that retries a faulted request gives its verdict / re-evaluates that much later
         # pause function per incarnation
         self.pz: dict[int, list[tuple[float, bool]]] = {}
         self.made: dict[int, float] = {}
@@ -623,6 +775,14 @@ class Hist:
             else:
                 break
         return out
+
+    def excused(self, inc: int, t0: float, t1: float) -> bool:
+        """[t0, t1] lies within ONE fault window of that operator's own-record requests (keep-alive, self-touch, withdrawal)."""
+        return any(own and a <= t0 and t1 <= b for (a, b, own, _hs) in self.windows.get(inc, []))
+
+    def in_window(self, inc: int, t: float) -> bool:
+        """t lies in a fault window of that operator's own-record requests, or within W after it (the others still reacting)."""
+        return any(own and a <= t <= b + self.W for (a, b, own, _hs) in self.windows.get(inc, []))
 
     def end_of(self, i: dict) -> float:
         """Until when the incarnation counts as a running operator."""
@@ -685,7 +845,28 @@ def oracle_history(ctx: Ctx, sc: dict, tr: dict, full: bool = False) -> dict:
     stats["late_regime"] = int(H.late)
 
     # ---- (X) no task of a running operator fails on its own --------------------------------------------------------
+    # Not its own: a request that an injected fault of the scenario answered (the environment) and whose error escaped kopf's
+    # client ends the task that issued it - the keep-alive, or the peering observer's call -, and with it the operator: FAIL-STOP,
+    # what the code is meant to do (a running operator without a renewed record would be worse). Excused: the failure follows
+    # the answer of a faulted request of that operator within the notice time, with an error of the API client's family; and the
+    # same error as it propagates through the operator's other guarded tasks.
+    API_ERRS = ("API", "ClientConnectionError", "ClientOSError", "ServerDisconnectedError", "TimeoutError")
+    fail_stops: dict[int, dict] = {}
     for g in tr.get("guard_failures", []):
+        first = fail_stops.get(g["inc"])
+        if first is not None and (g["exc"], g["msg"]) == (first["exc"], first["msg"]):
+            continue
+        wrapped = (g["exc"] == "RuntimeError" and g["msg"].startswith("Event processing has failed") and g["task"].startswith("peering observer")
+                   and any(p.get("faulted") and p["inc"] == g["inc"] and p["error"] not in (None, "cancelled") and str(p["error"]).startswith(API_ERRS)
+                           and p.get("t1") is not None and 0 <= g["t"] * TPS - p["t1"] <= 4 for p in tr["pcalls"]))
+        # (the observer: queueing.watcher reports the failure of its worker - the process_peering_event call that an injected
+        #  fault made raise, an instant ago - as a RuntimeError of its own)
+        if (g["exc"].startswith(API_ERRS) or wrapped) and any(a <= g["t"] <= b and any(h["t_done"] <= g["t"] for h in hs)
+                                                              for (a, b, _own, hs) in H.windows.get(g["inc"], [])):
+            if first is None:
+                fail_stops[g["inc"]] = g
+                stats["fail_stops"] = stats.get("fail_stops", 0) + 1
+            continue
         i = by_inc.get(g["inc"])
         ctx.oracle_fail(f"task '{g['task']}' of operator {i['name'] if i else g['inc']} failed at {g['t']} with {g['exc']}: {g['msg']} "
                         f"(in {g['site']}); the operator stops working",
@@ -788,7 +969,9 @@ def oracle_history(ctx: Ctx, sc: dict, tr: dict, full: bool = False) -> dict:
                 first = k0
                 break
         if first is None:
-            if t_to - i["t_start"] > 1.0:
+            if t_to - i["t_start"] > 1.0 and H.excused(i["inc"], i["t_start"] + 1.0, t_to):
+                stats["bare_in_fault_window"] = stats.get("bare_in_fault_window", 0) + 1      # its FIRST keep-alive was failing
+            elif t_to - i["t_start"] > 1.0:
                 fail(f"operator {i['name']} ran for {t_to - i['t_start']} s without ever writing its record",
                      "renewal: record never written", inc=i["inc"])
             continue
@@ -805,6 +988,10 @@ def oracle_history(ctx: Ctx, sc: dict, tr: dict, full: bool = False) -> dict:
                           and i["identity"] in w["patch"] and w["patch"][i["identity"]] is None]
                 restarted = any(j["identity"] == i["identity"] and j["t_start"] < i["t_start"] for j in incs) or \
                     (i["identity"] in (sc.get("pre_status") or {}))
+                if H.excused(i["inc"], h["t"], seg_end):
+                    # (its own withdrawal after a keep-alive that the API - an injected fault - refused: it is stopping)
+                    stats["bare_in_fault_window"] = stats.get("bare_in_fault_window", 0) + 1
+                    continue
                 if killer and prev is not None and H.live(prev, h["t"]) and restarted and not H.late:
                     by = "itself" if killer[0]["who"] == i["who"] else killer[0]["who"]
                     ctx.oracle_fail(f"the fresh record of restarted operator {i['name']} (lastseen {prev.get('lastseen')}) was deleted at {h['t']} by "
@@ -829,13 +1016,26 @@ def oracle_history(ctx: Ctx, sc: dict, tr: dict, full: bool = False) -> dict:
                                     {"site": "peering.clean", "shape": "fresh record of a running operator deleted by a peer",
                                      "regime": "late-delivery" if (H.late or old_view) else "timely"})
                 else:
-                    fail(f"the record of running operator {i['name']} is absent from the peering object during [{h['t']}, {seg_end})",
+                    fail(f"the record of running operator {i['name']} is absent from the peering object during [{h['t']}, {seg_end})"
+                         + (f"; its keep-alive requests were failing (injected API faults) during "
+                            f"{[(a, b) for (a, b, own, _hs) in H.windows.get(i['inc'], []) if own]}: that excuses the time of the "
+                            f"failing requests and what the code needs to notice, after which it must have renewed the record or stopped"
+                            if H.windows.get(i["inc"]) else ""),
                          "renewal: record of a running operator absent", inc=i["inc"], t=h["t"])
                 break
             d = H.deadline(r)
             if d is not None and d <= seg_end and not (d == seg_end and seg_end == t_to):
+                if H.excused(i["inc"], max(d, h["t"]), seg_end):
+                    # expired WHILE the renewal was failing (injected faults): no code can renew through a failing API; what it
+                    # must do is get through at the next attempt or stop - within the window
+                    stats["expired_in_fault_window"] = stats.get("expired_in_fault_window", 0) + 1
+                    continue
                 fail(f"the record of running operator {i['name']} (lastseen {r.get('lastseen')}, lifetime {r.get('lifetime')}) "
-                     f"expired at {d} before it was renewed (next version at {seg_end})",
+                     f"expired at {d} before it was renewed (next version at {seg_end})"
+                     + (f"; its keep-alive requests were failing (injected API faults) during "
+                        f"{[(a, b) for (a, b, own, _hs) in H.windows.get(i['inc'], []) if own]}: that excuses the time of the failing "
+                        f"requests and what the code needs to notice, after which it must have renewed the record or stopped "
+                        f"(it did neither: it runs on, its record dead, until {seg_end})" if H.windows.get(i["inc"]) else ""),
                      "renewal: record of a running operator expired before renewal", inc=i["inc"], t=d)
                 break
             stats["renewals"] += 1
@@ -896,6 +1096,75 @@ def oracle_history(ctx: Ctx, sc: dict, tr: dict, full: bool = False) -> dict:
                     fail(f"operator {i['name']} exited gracefully at {i['t_stopped']} but its record is still in the peering object",
                          "withdrawal: record left behind by a graceful exit", inc=i["inc"])
 
+    # ---- (Y) FAIL-STOP completes: an operator one of whose guarded tasks has failed (a keep-alive or an observer's call whose API
+    # request failed for good, whatever else) does not stay: the operator task ends - no half-alive operator, running without
+    # its pinger / observer (its record withdrawn or expiring, its peers resuming beside it) --------------------------------------
+    for i in incs:
+        tf = H.t_fail.get(i["inc"])
+        if tf is None or i["t_killed"] is not None or i["t_stop_req"] is not None:
+            continue
+        stats["fail_stop_owed"] = stats.get("fail_stop_owed", 0) + 1
+        if (i["t_exit"] is None and H.t_end - tf > 30) or (i["t_exit"] is not None and i["t_exit"] - tf > 30):
+            g0 = next(g for g in tr["guard_failures"] if g["inc"] == i["inc"])
+            fail(f"task '{g0['task']}' of operator {i['name']} ended at {tf} with {g0['exc']}, yet the operator "
+                 f"{'still runs at ' + str(H.t_end) if i['t_exit'] is None else 'ran on until ' + str(i['t_exit'])} (without that task)",
+                 "fail-stop: the operator stays although one of its tasks has failed", inc=i["inc"], t=tf)
+
+    # ---- (T) "exactly the highest-priority one ends up active", whatever the cause: two RUNNING operators are not both active
+    # (un-paused) beside each other for longer than a hand-over takes. Not counted: the time in which a keep-alive of one of the two
+    # was failing (a fault window: its record may expire, nobody can help that) and W after it. Timely regime (else: F4) -----------
+    Wh = H.W + 1.0
+    act_iv: dict[int, list[tuple[float, float]]] = {}
+    for i in incs if timely else []:
+        made = H.made.get(i["inc"])
+        if made is None:
+            continue
+        t_to = H.end_of(i)
+        cur_a = None
+        out_iv = []
+        for (t, v) in [(t, v) for (t, v) in H.pz.get(i["inc"], []) if t >= made] + [(t_to, True)]:
+            if t >= t_to:
+                t, v = t_to, True
+            if not v and cur_a is None:
+                cur_a = t
+            elif v and cur_a is not None:
+                if t > cur_a:
+                    out_iv.append((cur_a, t))
+                cur_a = None
+        act_iv[i["inc"]] = out_iv
+    done_pairs = set()
+    for i1 in incs if timely else []:
+        for i2 in incs:
+            if i1["inc"] >= i2["inc"] or (i1["name"], i2["name"]) in done_pairs:
+                continue
+            for (a1, b1) in act_iv.get(i1["inc"], []):
+                for (a2, b2) in act_iv.get(i2["inc"], []):
+                    lo, hi = max(a1, a2), min(b1, b2)
+                    if hi - lo <= Wh:
+                        continue
+                    # what is left of [lo, hi] outside the fault windows (+ W) of the two
+                    cuts = sorted((a, b + H.W) for inc in (i1["inc"], i2["inc"]) for (a, b, own, _hs) in H.windows.get(inc, []) if own)
+                    pieces, x = [], lo
+                    for (a, b) in cuts:
+                        if a > x:
+                            pieces.append((x, min(a, hi)))
+                        x = max(x, b)
+                        if x >= hi:
+                            break
+                    if x < hi:
+                        pieces.append((x, hi))
+                    stats["both_active_overlaps"] = stats.get("both_active_overlaps", 0) + 1
+                    bad = [(x0, x1) for (x0, x1) in pieces if x1 - x0 > Wh]
+                    if bad and (i1["name"], i2["name"]) not in done_pairs:
+                        done_pairs.add((i1["name"], i2["name"]))
+                        st0, _ = H.status_at(bad[0][0])
+                        recs = {ix["name"]: (None if st0.get(ix["identity"]) is None else
+                                             ("live" if H.live(st0[ix["identity"]], bad[0][0]) else "EXPIRED")) for ix in (i1, i2)}
+                        fail(f"operators {i1['name']} (priority {i1['priority']}) and {i2['name']} (priority {i2['priority']}) are both running "
+                             f"and both active (un-paused) during [{bad[0][0]}, {bad[0][1]}) - {bad[0][1] - bad[0][0]} s, a hand-over takes at "
+                             f"most {Wh} s; their records at the beginning: {recs}",
+                             "two running operators active beside each other", t=bad[0][0])
+
     # ---- (E) dead records of others get cleaned ----------------------------------------------------------------------
     seen_rec: set[tuple] = set()
     for k, h in enumerate(H.ph if timely else []):
@@ -925,6 +1194,10 @@ def oracle_history(ctx: Ctx, sc: dict, tr: dict, full: bool = False) -> dict:
                     gone = h2["t"]
                     break
             stats["dead_cleaned"] += 1
+            if (gone is None or gone > t_dead + best) and any(h["cls"] == "clean" and t_dead <= h["t"] <= t_dead + best for h in H.hits):
+                # a clean() was answered by an injected fault (a 409 is taken for "changed meanwhile": the next event re-evaluates)
+                stats["cleanup_lost_to_api_errors"] = stats.get("cleanup_lost_to_api_errors", 0) + 1
+                continue
             if gone is None or gone > t_dead + best:
                 tried = [w for w in tr.get("refused", []) if isinstance(w.get("patch"), dict) and ident in w["patch"]
                          and t_dead <= w["t"] <= t_dead + best]
@@ -1121,6 +1394,22 @@ def oracle_history(ctx: Ctx, sc: dict, tr: dict, full: bool = False) -> dict:
                 cut1 = i1["t_stopped"] is not None and i1["t_stopped"] <= c2["t"] and (c1.get("t_end") is None or c1["t_end"] >= i1["t_stopped"] - LAT)
                 if cut1:
                     continue
+                tf1 = H.t_fail.get(i1["inc"])
+                if (tf1 is not None and tf1 <= c2["t"] and i1["inc"] in fail_stops and "keep-alive" in fail_stops[i1["inc"]]["task"]
+                        and (i1["t_killed"] is None or i1["t_killed"] > c2["t"]) and i1["t_stop_req"] is None
+                        and c1["t"] <= c2["t"] and (c1.get("t_end") is None or c1["t_end"] > max(tf1, c2["t"]))
+                        and not H.paused_at(i1["inc"], c1["t"]) and not H.paused_at(i2["inc"], c2["t"])
+                        and not (H.expected_paused(i2, c2["t"]) and settling(i2, c2["t"]))):
+                    # FAIL-STOP of the first one: its keep-alive failed (an injected API fault), the pinger's own `finally` withdrew
+                    # the record AT ONCE, and only then did the orchestrator begin to stop the handling: the order that 26a293c
+                    # established for the graceful stop (handling first, withdrawal last) is not kept on this way out
+                    reported = True
+                    ctx.oracle_fail(f"change {key[1]}(x={key[2]}) of {c1['name']} is being handled by {i1['name']} since {c1['t']} (until {c1.get('t_end')}); "
+                                    f"its keep-alive failed at {tf1} (the API refused it: injected fault), keepalive()'s finally withdrew the "
+                                    f"record at once, {i2['name']} resumed and handles the same change at {c2['t']} - {i1['name']} is still at it "
+                                    f"(the operator task ends at {i1.get('t_exit')})",
+                                    {"scenario": sc, "t": c2["t"]}, dict(FAILSTOP_ORDER_SIG))
+                    continue
                 if gone1 or H.paused_at(i1["inc"], c1["t"]) or H.paused_at(i1["inc"], c2["t"]) or H.paused_at(i2["inc"], c2["t"]):
                     continue
                 # judged by the ground truth (the peering object itself), not by what the operators believed:
@@ -1137,7 +1426,11 @@ def oracle_history(ctx: Ctx, sc: dict, tr: dict, full: bool = False) -> dict:
                 #      queueing.exit_timeout. (The reverse - a successor of LOWER priority resuming beside the leaver - is F7.)
                 outranked_leaver = (right1 and i1["t_stop_req"] is not None and i1["t_stop_req"] <= c2["t"]
                                     and i2["priority"] >= i1["priority"] and c1["t"] <= H.made.get(i2["inc"], i2["t_start"]))
-                if unseen or handover or outranked_leaver:
+                # (iv) the record of one of the two could not be written / renewed at that time: its keep-alive requests were failing
+                #      (injected API faults; the window and W after it) - they do not see each other, no code can help that
+                blind = H.in_window(i1["inc"], c1["t"]) or H.in_window(i1["inc"], c2["t"]) or H.in_window(i2["inc"], c2["t"]) \
+                    or H.in_window(i2["inc"], c1["t"])
+                if unseen or handover or outranked_leaver or blind:
                     continue
                 reported = True
                 what = (f"change {key[1]}(x={key[2]}) of {c1['name']} handled by {i1['name']} at {c1['t']} (until {c1.get('t_end')}) AND by "
@@ -1394,6 +1687,17 @@ def judge(sc: dict, tr: dict, full: bool = False) -> dict:
         col.count("history.stop_on_wake", "fired (stop at the tick a sleep to a deadline ended)"
                   if any(m["what"] == "stop_on_wake" for m in tr.get("marks", [])) else "armed, no undisturbed wake")
     col.count("history.handler_delay", sc.get("handler_delay") or 0)
+    for f in sc.get("faults") or []:
+        fired = [h for h in tr.get("fault_hits", []) if h["who"].split("#")[0].split("-r")[0] == f.get("who") and
+                 (f.get("cls") is None or h["cls"] == f["cls"])]
+        life = int(sc["ops"].get(f.get("who"), {}).get("lifetime", 60))
+        col.count("history.api_faults", f"{f.get('cls', 'any PATCH')}: {f.get('kind', 'status')}"
+                                        f"{' ' + str(f.get('status', 503)) if f.get('kind', 'status') == 'status' else ''} x{f.get('count', 'all')}, "
+                                        f"lifetime {'<=20' if life <= 20 else '>20'}: {'fired' if fired else 'armed, not reached'}")
+    col.count("history.api_faults", "histories with faults" if sc.get("faults") else "histories without faults")
+    stops = [g for g in tr.get("guard_failures", []) if any(h["inc"] == g["inc"] for h in tr.get("fault_hits", []))]
+    if stops:
+        col.count("history.api_faults", "fail-stop after a fault: " + stops[0]["task"].split(" for ")[0])
     if sc.get("churn"):
         col.count("history.churn", f"{len(sc['ops'])} operators, lifetime 2, delivery {max(sc['delivery'].values())}")
     col.count("history.events", ",".join(sorted({e[1] for e in sc["timeline"]})))
@@ -1405,6 +1709,11 @@ def judge(sc: dict, tr: dict, full: bool = False) -> dict:
     for n, p in enumerate(tr["pcalls"]):
         if p["now2"] is None and p["error"] in (None, "cancelled") and p["name_ok"]:
             continue            # cancelled before it got anywhere (operator exit)
+        if p.get("faulted"):
+            # an injected API fault inside the call (its clean() or its self-touch): `deliver` cannot fail in the model; what the
+            # real call does then - raise and stop the operator, or retry and go on later - is the oracle's to judge
+            col.count("history.calls_hit_by_a_fault", p["error"] or "went on")
+            continue
         if p["error"] not in (None, "cancelled"):
             impl: Any = ["err", sim_c13.ERR_ENUM.get(p["error"], "other:" + p["error"])]
         elif not p["name_ok"] and p["now2"] is None and not p["cleaned"] and not p["turned"] and not p["touched"]:
@@ -1429,6 +1738,7 @@ def judge(sc: dict, tr: dict, full: bool = False) -> dict:
     bound = 1 + sim_c13.ticks(max([0.0] + [float(x) for x in (sc.get("patch_latency") or {}).values()])) \
         + sim_c13.ticks(max([0.0] + [float(x) for x in (sc.get("selftouch_latency") or {}).values()]))
     wf_writes = []
+    Hw = Hist(sc, tr)
     for w in tr.get("writes", []):
         b, a_, pt = wf_status(w["before"]), wf_status(w["after"]), w["patch"]
         pl: list | None = []
@@ -1451,7 +1761,11 @@ def judge(sc: dict, tr: dict, full: bool = False) -> dict:
             if vv is not None:
                 lag = sim_c13.ticks(w["t"]) - vv["lastseen"]
                 col.count("lts.touch_lag_ticks", lag)
-                if not (0 <= lag <= bound):
+                w_inc = next((i["inc"] for i in tr["incs"] if i["who"] == w["who"]), None)
+                if lag > bound and any(a <= w["t"] <= b for (a, b, _own, _hs) in Hw.windows.get(w_inc, [])):
+                    # a request that kopf's client RETRIES carries the record stamped at the first attempt
+                    col.count("lts.touch_lag_ticks", "late: a retried request (injected fault)")
+                elif not (0 <= lag <= bound):
                     col.tie_fail(f"a record landed {lag} ticks after it was stamped: the harness' API latency exceeds the bound B the "
                                  f"timely-run theorems assume", {"scenario": sc, "write": w})
     # every call that cleans, as ONE step of the transition system: (view, its version) against (the status, its version) at the
@@ -1462,7 +1776,7 @@ def judge(sc: dict, tr: dict, full: bool = False) -> dict:
     for w in tr.get("refused", []):
         by_issue.setdefault((w["who"], sim_c13.ticks(w["t_issue"])), []).append((w, wf_status(w["before"]), wf_status(w["after"]), True))
     for p in tr["pcalls"]:
-        if not p["cleaned"] or p["toggle_before"] is None or p["error"] not in (None, "cancelled"):
+        if not p["cleaned"] or p["toggle_before"] is None or p["error"] not in (None, "cancelled") or p.get("faulted"):
             continue
         view = wf_status(p["status"])
         ws = [x for x in by_issue.get((who_of.get(p["inc"]), p["t0"]), [])
@@ -1582,7 +1896,7 @@ def run(ctx: Ctx) -> None:
     witnesses = [(n, d) for n, d in corpus if d.get("expect")]
     n_direct = ctx.budget(3000, 40000)
     direct_cases += [gen_direct(ctx.rng) for _ in range(n_direct)]
-    n_hist = ctx.budget(100, 2000)
+    n_hist = ctx.budget(120, 2000)
     histories += [gen_history(ctx.rng, ctx.seed * 1_000_000 + i) for i in range(n_hist)]
     check_keepalive(ctx)
     check_direct(ctx, direct_cases, reqs, impls, wheres, flags)
